@@ -77,7 +77,7 @@ static int tm_same(const tm_res *a, const tm_res *b) {
 }
 
 typedef struct { int tid; long calls, mismatches, errors, errapi; long first_bad_req; tm_res bad; } tm_targ;
-static uint64_t tm_seed;
+static uint64_t tm_seed; static char tm_loc0[512];
 
 static void *tm_worker(void *p) {
   tm_targ *a = (tm_targ *)p; long k; xrl_error *slot = NULL;
@@ -189,6 +189,7 @@ int main(int argc, char **argv) {
     for (k = 0; k < tm_n; k++) tm_exec(&tm_rq[k], &tm_ref[k], NULL);
     for (k = 0; k < tm_n; k++) { tm_res o; tm_exec(&tm_rq[k], &o, NULL); if (!tm_same(&o, &tm_ref[k])) nondet++; }
   }
+  snprintf(tm_loc0, sizeof tm_loc0, "%s", setlocale(LC_ALL, NULL));
   xrl_verif_hook = tm_hook;
   th = calloc(tm_threads, sizeof *th); ta = calloc(tm_threads, sizeof *ta);
   pthread_barrier_init(&tm_bar, NULL, tm_threads);
@@ -204,7 +205,7 @@ int main(int argc, char **argv) {
   }
   xrl_verif_hook = NULL;
   f = fopen(argv[4], "w"); if (!f) return 2;
-  fprintf(f, "{\"file_episodes\":%ld,\"file_mismatches\":%ld,\"file_bad\":%d,\"threads\":%d,\"requests\":%ld,\"cold\":%d,\"serial_nondeterministic\":%ld,\"locale\":\"%s\",\"bad\":[", (long)atomic_load(&tm_fdone), (long)atomic_load(&tm_fmis), atomic_load(&tm_fbad), tm_threads, tm_n, cold, nondet, setlocale(LC_ALL, NULL));
+  fprintf(f, "{\"locale_before_threads\":\"%s\",\"file_episodes\":%ld,\"file_mismatches\":%ld,\"file_bad\":%d,\"threads\":%d,\"requests\":%ld,\"cold\":%d,\"serial_nondeterministic\":%ld,\"locale\":\"%s\",\"bad\":[", tm_loc0, (long)atomic_load(&tm_fdone), (long)atomic_load(&tm_fmis), atomic_load(&tm_fbad), tm_threads, tm_n, cold, nondet, setlocale(LC_ALL, NULL));
   for (t = 0, a = 0; t < tm_threads; t++) { total += ta[t].calls; mism += ta[t].mismatches; errs += ta[t].errors; errapi += ta[t].errapi;
     if (ta[t].first_bad_req >= 0) { const tm_res *r = &tm_ref[ta[t].first_bad_req], *b = &ta[t].bad;
       /* values as bit patterns: printf of a double follows the process locale (decimal comma under xx_VERIF) */
